@@ -435,6 +435,17 @@ SUPPORTS_TASK_HANDLE = {"rename", "rename_module", "move_global", "move_module",
 SUPPORTS_RESOURCES = SUPPORTS_TASK_HANDLE
 
 
+def norm_msg(exc):
+    """Exception message with run-specific parts removed (part of the signature
+    of an internal exception, so that another failure in the same function is
+    not mistaken for a listed one)."""
+    m = str(exc)
+    m = kernel.scrub(m)
+    m = re.sub(r"/[\w./-]+", "<path>", m)
+    m = re.sub(r"\d+", "N", m)
+    return m[:100]
+
+
 def innermost_rope_frame(exc):
     tb = traceback.extract_tb(exc.__traceback__)
     for fr in reversed(tb):
@@ -492,7 +503,7 @@ class EffectsEngine(Engine):
             "p_resources": rng.choice([0.0, 0.3]),
         }
 
-    def gen_request(self, rng, u, swarm):
+    def gen_request(self, rng, u, swarm, step_no=0):
         t = kernel.snapshot(u.root)
         pyfiles = sorted(p for p, v in t.items() if isinstance(v, bytes) and p.endswith(".py") and not p.startswith(ROPEFOLDER))
         inproj = [p for p in pyfiles if not p.startswith("ignored_dir")]
@@ -519,7 +530,8 @@ class EffectsEngine(Engine):
                     st["raw_offset"] = rng.randint(0, max(0, len(text)))
                 else:
                     st["nudge"] = rng.choice([-1, 1, 2])
-        st["new"] = rng.choice(NEWNAMES[:4]) + str(rng.randint(0, 99)) if not malformed or rng.random() < 0.5 else rng.choice(NEWNAMES)
+        # fresh names never collide with something that already exists in the evolving project
+        st["new"] = rng.choice(NEWNAMES[:4]) + "_%d" % (rng.randint(0, 99) * 1000 + step_no) if not malformed or rng.random() < 0.5 else rng.choice(NEWNAMES)
         if k == "rename":
             st["docs"] = rng.random() < 0.2
             st["hier"] = rng.random() < 0.2
@@ -588,13 +600,16 @@ class EffectsEngine(Engine):
             or st["new"] in NEWNAMES[4:]
             or (k == "restructure" and st["pattern"] == "${")
             or (k == "change_signature" and any((c[0] in ("remove", "inline_default") and c[1] > 1) or (c[0] == "reorder" and len(c[1]) < 2) for c in st["changers"]))
-            or (k == "move_global" and st["dest"] in ("nosuch.module", "pkg", "core") and not st.get("dest_is_resource"))
             or (k == "move_module" and (st["dest"] in ("pkg/util.py",) or st["dest"] == st["path"] or st["dest"].startswith(st["path"] + "/") or st["dest"] == "ignored_dir"))
             or (k == "move_method" and st["dest_attr"] == "nosuch")
             or st["path"] == "notes.txt"
             or (k == "move_module" and st["dest"].startswith("ext:"))
             or (k == "module_to_package" and (st["path"].endswith("__init__.py") or not st["path"].endswith(".py")))
         )
+        if st["malformed"]:
+            # malformed requests are computed (effect clauses checked) but never performed,
+            # so the evolving project stays a sane Python program
+            st["perform"] = False
         return st
 
     # ------------------------------------------------------------------
@@ -620,7 +635,7 @@ class EffectsEngine(Engine):
             given = trace.get("steps")
             n = swarm["steps"] if given is None else len(given)
             for i in range(n):
-                st = self.gen_request(rng, u, swarm) if given is None else given[i]
+                st = self.gen_request(rng, u, swarm, i) if given is None else given[i]
                 steps_out.append(st)
                 u.clock.advance(1_000_000_000)
                 out.evals += 1
@@ -692,7 +707,7 @@ class EffectsEngine(Engine):
                         # request, not searched by this technique); the effect clauses above still are
                         out.stats["malformed_request_internal_exc_" + en] += 1
                     elif not isinstance(exc, exceptions.RopeError):
-                        sig2 = dict(sig, exc=en, frame=innermost_rope_frame(exc))
+                        sig2 = dict(sig, exc=en, frame=innermost_rope_frame(exc), msg=norm_msg(exc))
                         if isinstance(exc, RecursionError):
                             sig2["non_package_folder"] = _has_non_package_folder(u)
                         out.violate(
@@ -769,7 +784,7 @@ class EffectsEngine(Engine):
                     descs = _descriptions(changes)
                     whole_desc = changes.get_description()
                 except Exception as e:
-                    out.violate("internal_exception", dict(sig, exc=type(e).__name__, frame=innermost_rope_frame(e), phase="preview"),
+                    out.violate("internal_exception", dict(sig, exc=type(e).__name__, frame=innermost_rope_frame(e), phase="preview", msg=norm_msg(e)),
                                 {"step": i, "request": _brief(st), "exc": repr(e)[:300]}, where=i)
                     continue
                 pre = u.snap(meta=False)
@@ -797,7 +812,7 @@ class EffectsEngine(Engine):
                     if not isinstance(pexc, exceptions.RopeError) and st.get("malformed"):
                         out.stats["malformed_request_internal_exc_" + type(pexc).__name__] += 1
                     elif not isinstance(pexc, exceptions.RopeError):
-                        out.violate("internal_exception", dict(sigp, phase="perform"),
+                        out.violate("internal_exception", dict(sigp, phase="perform", msg=norm_msg(pexc)),
                                     {"step": i, "request": _brief(st), "exc": repr(pexc)[:300], "frame": sigp["frame"]}, where=i)
                     continue
                 problems = []
